@@ -3,6 +3,7 @@
 # writes seeded/RESULTS.md.  V = VIOLATION with a concrete failing input, N = VIOLATION ... no-failing-input-found, MISSED = check passed
 cd "$(dirname "$(readlink -f "$0")")/.."
 SEEDS=${SEEDS:-1}
+export MUT_DIR=${MUT_DIR:-$(mktemp -d /tmp/repo_mut.XXXXXX)}   # private scratch clone: concurrent runs must not share one
 out=seeded/RESULTS.md
 echo "# Seeded changes vs quick checks (tools/run_seeded.sh, seeds: $SEEDS, $(date -u +%F))" > $out
 echo "" >> $out
@@ -22,4 +23,4 @@ for d in seeded/C*-*; do
   done
   echo "| $id | $p |$row |" | tee -a $out
 done
-rm -rf /tmp/repo_mut
+rm -rf "$MUT_DIR"
